@@ -311,11 +311,22 @@ def run(ctx):
         if p.outcome == "raise":
             if any(e.kind == "call" and sub in (e.data.get("targets") or []) for e in p.events):
                 chk.violation("R10.c", obs_init, None, "the singleton guard raises after the observer was already subscribed", path=p.describe())
-    guard = [
-        n for n in own_nodes(obs_init.node)
-        if isinstance(n, ast.If) and any(isinstance(x, ast.Raise) for x in ast.walk(n))
-        and "_is_singleton" in ast.unparse(n.test) and "isinstance" in ast.unparse(n.test) and "subscribers" in ast.unparse(n.test)
-    ]
+    # a raising path of the constructor (private helpers inlined) that knows
+    # "is a singleton" and "an existing subscriber is an instance of this
+    # class" - whichever way the test is spelled (any(...) or an explicit loop)
+    geng = ctx.engine(relevant=lambda e: e.kind in ("branch", "raise", "loop"), max_depth=2, unroll=1)
+    guard = []
+    for p in geng.paths(obs_init, obs):
+        if p.outcome != "raise":
+            continue
+        known = path_atoms(ctx, p.events)
+        texts = [t for t, v in known.items() if v]
+        loops = [ctx.norm.xtext(e.fi, e.node.iter) for e in p.events if e.kind == "loop" and isinstance(e.node, ast.For)]
+        singleton = any("_is_singleton" in t or "is_singleton" in t for t in texts)
+        same_cls = any("isinstance(" in t for t in texts)
+        over_subs = any("subscribers" in t for t in texts + loops)
+        if singleton and same_cls and over_subs:
+            guard.append(p.events[-1].node)
     if guard:
         chk.ok("R10.c", obs_init.qualname, obs_init.loc(guard[0]), "singleton guard raises before subscribing")
     else:
